@@ -43,8 +43,11 @@ def one(base, title, intro):
                 "caught by (quick tier) | first violation keys |\n|---|---|---|---|---|---|---|---|\n")
         for r in rows:
             f.write("| " + " | ".join(str(x) for x in r) + " |\n")
-        n_c = sum(1 for r in rows if r[6] not in ("NOT CAUGHT", "not evaluated"))
-        f.write(f"\n{n_c} of {len(rows)} changes are caught by the quick tier of the check of their property.\n")
+        n_own = sum(1 for r in rows if r[1] in [c.strip() for c in str(r[6]).split(",")])
+        n_other = sum(1 for r in rows if r[6] not in ("NOT CAUGHT", "not evaluated")) - n_own
+        f.write(f"\n{n_own} of {len(rows)} changes are caught by the quick tier of the check of their own property"
+                + (f"; {n_other} more only by the check of another property (its trigger lies in that property's "
+                   f"domain, e.g. a solver fault)" if n_other else "") + ".\n")
     return rows
 
 
